@@ -450,7 +450,7 @@ META = {
         "design_ref": "DESIGN.md §3 C01, §2 F1.c",
     },
     "C02": {
-        "text": "Twin agreement of the four variable access emitters over all (resolution, SymbolState) cases (a captured variable never maps to a raw-slot instruction; captured declarations always allocate a box); op_closure copies box references per CaptureIndex kind and reads exactly capture_count operands; boxes are allocated only by EmptyBox/Box; get/set box/capture go through the box; add_capture de-duplicates only equal Local slots. Resolver traversal completeness (F2.visit) and resolver/compiler agreement on when a construct's variable comes into scope (F2.order); raw-slot instructions only under a SymbolState dispatch (F2.t raw-slot); captured state survives collection (Trace impls of Closure/Captures/LyBox/CallFrame/Fiber, ObjectRef arms trace the handle itself) and the peephole pass (F11). Innermost-declaration resolution and fresh-variable-per-execution are declined (properties of the resolver's symbol tables over all programs).",
+        "text": "Twin agreement of the four variable access emitters over all (resolution, SymbolState) cases (a captured variable never maps to a raw-slot instruction; captured declarations always allocate a box); op_closure copies box references per CaptureIndex kind and reads exactly capture_count operands; boxes are allocated only by EmptyBox/Box; get/set box/capture go through the box; add_capture de-duplicates only equal Local slots. Resolver traversal completeness (F2.visit) and resolver/compiler agreement on when a construct's variable comes into scope (F2.order); raw-slot instructions only under a SymbolState dispatch (F2.t raw-slot); captured state survives collection (Trace impls of Closure/Captures/LyBox/CallFrame/Fiber, ObjectRef arms trace the handle itself) and the peephole pass (F11). Innermost-declaration resolution and fresh-variable-per-execution are declined (properties of the resolver's symbol tables over all programs). The value of a declared variable is produced between declare_variable and define_variable (F2.d-between: for a captured variable the pair brackets the initialiser with EmptyBox..FillBox).",
         "note": "Structural necessary conditions of sharing-by-reference.",
         "technique": "static analysis: syntax-tree case-table comparison (syn) + MIR inspection of handlers",
         "design_ref": "DESIGN.md §3 C02",
@@ -462,7 +462,7 @@ META = {
         "design_ref": "DESIGN.md §3 C03",
     },
     "C04": {
-        "text": "try_/catch emission skeletons; every explicit early exit emits the guarded PopHandler before its transfer; multiplicity contradiction (constant-bounded pops vs unbounded nesting, nothing clears handlers on frame exit); handler depth provenance (must depend on arity because unwinding restores stack_start + slot_depth and stack_start lies below the arguments); unwind sets stack_top/frame/ip together; catch filter direction and jump edge; FinishUnwind/ContinueUnwind/handler-error bookkeeping; raise filter; F1.e over the exception opcodes. The compiler's try/loop/class nesting records are saved on entry and exactly the saved value restored, with try_ restoring between the protected block and the catch clauses (F2.scope); the catch variable is defined with the state its declaration returned (F2.d); natives that can run a user callable are declared with_stack so unwinding stops at the native boundary (F4.native-env); nothing evaluated only under debug assertions borrows state mutably (F10.dbg: release and debug builds pop the same handlers). Which handler a dynamic raise reaches and state preservation as an input/output relation are declined.",
+        "text": "try_/catch emission skeletons; every explicit early exit emits the guarded PopHandler before its transfer; multiplicity contradiction (constant-bounded pops vs unbounded nesting, nothing clears handlers on frame exit); handler depth provenance (must depend on arity because unwinding restores stack_start + slot_depth and stack_start lies below the arguments); unwind sets stack_top/frame/ip together; catch filter direction and jump edge; FinishUnwind/ContinueUnwind/handler-error bookkeeping; raise filter; F1.e over the exception opcodes. The compiler's try/loop/class nesting records are saved on entry and exactly the saved value restored, with try_ restoring between the protected block and the catch clauses (F2.scope); the catch variable is defined with the state its declaration returned (F2.d); natives that can run a user callable are declared with_stack so unwinding stops at the native boundary (F4.native-env); nothing evaluated only under debug assertions borrows state mutably (F10.dbg: release and debug builds pop the same handlers). Which handler a dynamic raise reaches and state preservation as an input/output relation are declined. Fiber::pop_frame compares handler depths with the frame count after the pop (F12.handlers-after-pop); the depth of a new try record is read before the enclosing one is taken out (F12.try-depth); apply_stack_effects is judged per instruction kind by partial evaluation of its MIR (F3: recorded depth, restore, fall-through flag); a native that parks a callback failure stops calling back (F4.err-stop).",
         "note": "Emission-flow obligations (F3: linear depth = real depth at every try) are in the thorough tier.",
         "technique": "static analysis: emission-order queries on the syntax tree + MIR dominance/def-use + handler dataflow",
         "design_ref": "DESIGN.md §3 C04",
@@ -480,19 +480,19 @@ META = {
         "design_ref": "DESIGN.md §3 C13",
     },
     "C06": {
-        "text": "Row-by-row agreement of the five hand-kept ISA tables over all 79 symbolic / 74 real opcodes: len = encoder bytes = encoder line entries = 1 + operand bytes every handler path consumes (with operand widths); stack_effect as a linear form in the operand = handler net push/pop on every normally-ending path ((taken, fall-through) pairs for conditional transfers); retry-by-rewind paths rewind exactly len after all reads on a stack-neutral parked path; jump bias = len with the right sign and a range check; label offsets; stack reservation for pushes the compiler does not account for. Decides these structural clauses (necessary for the stack contract), not index-in-range of constants/locals per program.",
+        "text": "Row-by-row agreement of the five hand-kept ISA tables over all 79 symbolic / 74 real opcodes: len = encoder bytes = encoder line entries = 1 + operand bytes every handler path consumes (with operand widths); stack_effect as a linear form in the operand = handler net push/pop on every normally-ending path ((taken, fall-through) pairs for conditional transfers); retry-by-rewind paths rewind exactly len after all reads on a stack-neutral parked path; jump bias = len with the right sign and a range check; label offsets; stack reservation for pushes the compiler does not account for. Decides these structural clauses (necessary for the stack contract), not index-in-range of constants/locals per program. Jump distances and the offset advance of the encoder are judged by partial evaluation per instruction kind (F1.j: L - O - len(op), range-checked); try nesting records, depths and dead handlers as in C04.",
         "note": "Call protocol summarised as callee+n args -> 1 result; Fiber::split summarised as removing the callee slot. Emission-side clauses (F2/F3) are added as those engines are wired in.",
         "technique": "static analysis: table extraction from MIR switch arms as linear forms + path-sensitive dataflow over handler CFGs",
         "design_ref": "DESIGN.md §3 C06, §2 F1",
     },
     "C07": {
-        "text": "Necessary structural conditions of exactly-once FIFO delivery decided on ChannelQueue and the two VM handlers: the buffer is mutated only by send's push_back(val) and receive's pop_front; every enqueue is control-dependent on the strict len<capacity test or on (sync && empty) and on the Ready state; the closed protocol of close()/receive; views share the buffer and respect their direction; per result variant the queue moved the value XOR the handler rewinds and re-pushes. A sync channel hands over at most one value per rendezvous and parks the sender until it is taken (F4.chan-sync/F4.chan-park); the channel's Trace impl reaches the queue, both waiter sets and every buffered value (F5). Decides these clauses, not ordering across interleavings of several senders/receivers.",
+        "text": "Necessary structural conditions of exactly-once FIFO delivery decided on ChannelQueue and the two VM handlers: the buffer is mutated only by send's push_back(val) and receive's pop_front; every enqueue is control-dependent on the strict len<capacity test or on (sync && empty) and on the Ready state; the closed protocol of close()/receive; views share the buffer and respect their direction; per result variant the queue moved the value XOR the handler rewinds and re-pushes. A sync channel hands over at most one value per rendezvous and parks the sender until it is taken (F4.chan-sync/F4.chan-park); the channel's Trace impl reaches the queue, both waiter sets and every buffered value (F5). Decides these clauses, not ordering across interleavings of several senders/receivers. The wake-up search precedes parking (F4.wake), destructive dequeues stay lazy (F12.lazy-dequeue), a completing fiber clears its waiter's runnable flag (F12.complete-flag).",
         "note": "Trusts VecDeque's FIFO semantics; rewind width/stack neutrality are decided by F1.r (C06).",
         "technique": "static analysis: who-may-write on a field, dominating-guard extraction, per-variant path effects on MIR",
         "design_ref": "DESIGN.md §3 C07",
     },
     "C08": {
-        "text": "Scheduler shape decided over all VM code: one deadlock emission site under (ContextSwitch && fiber_queue empty); every ContextSwitch is preceded on all paths by exactly one block/sleep/complete and every park is followed by ContextSwitch; every parking arm first tries to wake a waiter; no created fiber is orphaned; complete() prefers a pending parent; every channel state change registers the channel with the acting fiber or wakes a waiter (findability). The run queue is FIFO (push_back/pop_front, F4.runq); closing a channel wakes every waiter and a woken fiber re-executes its instruction (F4.closed-wake). Decides these clauses, not liveness over all topologies.",
+        "text": "Scheduler shape decided over all VM code: one deadlock emission site under (ContextSwitch && fiber_queue empty); every ContextSwitch is preceded on all paths by exactly one block/sleep/complete and every park is followed by ContextSwitch; every parking arm first tries to wake a waiter; no created fiber is orphaned; complete() prefers a pending parent; every channel state change registers the channel with the acting fiber or wakes a waiter (findability). The run queue is FIFO (push_back/pop_front, F4.runq); closing a channel wakes every waiter and a woken fiber re-executes its instruction (F4.closed-wake). Decides these clauses, not liveness over all topologies. Destructive dequeues stay lazy (F12.lazy-dequeue); a completing fiber clears its waiter's runnable flag on every path (F12.complete-flag, partial evaluation).",
         "note": "Wake-ups are lazy in Laythe (found via the acting fiber's used-channel list); the findability clause encodes that design.",
         "technique": "static analysis: path-sensitive dataflow over MIR CFGs, dominance / post-dominance, call-graph who-may-call",
         "design_ref": "DESIGN.md §3 C08",
@@ -504,13 +504,13 @@ META = {
         "design_ref": "DESIGN.md §3 C15",
     },
     "C10": {
-        "text": "Forwarding contradiction decided structurally: a relocation mechanism exists (mark_moved reached only from List::grow) and List == List resolves the forwarding pointer, while Value == Value / Hash for Value compare the raw address; every native that grows its receiver list tests has_moved and rescans the roots on that edge. Alias visibility across containers as a history property is declined. Block writes of List methods only on the Here arm of the receiver's own state() (F10.fwd-write); scan_roots rewrites the whole value stack (F10.scan-all); values copied out of args before scan_roots are not compared after it (F10.stale); equal values hash equal (F10.eq); the relocating vector's Trace clauses (F5.p).",
+        "text": "Forwarding contradiction decided structurally: a relocation mechanism exists (mark_moved reached only from List::grow) and List == List resolves the forwarding pointer, while Value == Value / Hash for Value compare the raw address; every native that grows its receiver list tests has_moved and rescans the roots on that edge. Alias visibility across containers as a history property is declined. Block writes of List methods only on the Here arm of the receiver's own state() (F10.fwd-write); scan_roots rewrites the whole value stack (F10.scan-all); values copied out of args before scan_roots are not compared after it (F10.stale); equal values hash equal (F10.eq); the relocating vector's Trace clauses (F5.p). state()/relocated_vector() answer with the next hop while Trace recurses hop by hop (F12.fwd-hop).",
         "note": "Decides the structural necessary condition only.",
         "technique": "static analysis: call-graph reachability + dominating-guard extraction on MIR",
         "design_ref": "DESIGN.md §3 C10",
     },
     "C14": {
-        "text": "Both feature configurations type-check (the nan-boxed one is never built by the pinned suite); mod boxed / mod unboxed expose the same items, From<T> set, constants and traits; number equality and hashing are f64-based in each representation; the boxed tag algebra is decided by constant folding and cube predicates over the 64-bit word (tags distinct, inside quiet-NaN space, object tag in bits >= 48, no small tag passes the object/number tests, constructor/test/destructor compose to the identity, kind()'s switch covers the four tags); kind tables hold in the nan-boxed configuration too. Output equality over programs (needs both builds run) is declined. Number constants are unmodified literal parses (F1.k-num); boxed From<f64>/to_num are the identity on bits (F10.num-bits); equality exactness/reflexivity/hash agreement (F10.eq); the unchecked-cast and signature-enforcement rules of C16 (an unguarded cast is where the builds part ways).",
+        "text": "Both feature configurations type-check (the nan-boxed one is never built by the pinned suite); mod boxed / mod unboxed expose the same items, From<T> set, constants and traits; number equality and hashing are f64-based in each representation; the boxed tag algebra is decided by constant folding and cube predicates over the 64-bit word (tags distinct, inside quiet-NaN space, object tag in bits >= 48, no small tag passes the object/number tests, constructor/test/destructor compose to the identity, kind()'s switch covers the four tags); kind tables hold in the nan-boxed configuration too. Output equality over programs (needs both builds run) is declined. Number constants are unmodified literal parses (F1.k-num); boxed From<f64>/to_num are the identity on bits (F10.num-bits); equality exactness/reflexivity/hash agreement (F10.eq); the unchecked-cast and signature-enforcement rules of C16 (an unguarded cast is where the builds part ways). For two numbers the boxed eq answers with the f64 comparison on every path (F10.eq number-shortcut, partial evaluation); f64::to_bits/from_bits count as the identity on bits.",
         "note": "Assumes heap pointers fit in 48 bits and arithmetic yields only the default quiet NaN.",
         "technique": "static analysis: second-configuration type check, syntactic item parity, constant folding + bit-cube predicate evaluation, MIR inspection of PartialEq/Hash",
         "design_ref": "DESIGN.md §3 C14",
@@ -522,43 +522,43 @@ META = {
         "design_ref": "DESIGN.md §3 C11",
     },
     "C16": {
-        "text": "Crash-freedom clauses decided over all 130 natives and all VM code: every unchecked cast (Value::to_num/to_bool/to_obj, ObjectRef::to_*) on an argument, callback result, iterator value, stack operand or element of a user object is justified by the declared ParameterKind, a dominating kind test, or a named compiler-provenance site; constant indices into args stay below the declared arity's minimum; call_native checks the signature first and the three signature testers agree; is_valid's table; superclass admissibility (receiver soundness); guarded slices of constant arrays; frame-limit guard dominates every push_frame; kind<->cast tables (F6). Declared arity covers every args[i] the body reads (F9.a coverage); library indexing is guarded (F9.x); sizes taken from user numbers are range-checked before a cast or allocation (F9.size); no reachable todo!/unimplemented! on an input-dependent path (F4.todo).",
+        "text": "Crash-freedom clauses decided over all 130 natives and all VM code: every unchecked cast (Value::to_num/to_bool/to_obj, ObjectRef::to_*) on an argument, callback result, iterator value, stack operand or element of a user object is justified by the declared ParameterKind, a dominating kind test, or a named compiler-provenance site; constant indices into args stay below the declared arity's minimum; call_native checks the signature first and the three signature testers agree; is_valid's table; superclass admissibility (receiver soundness); guarded slices of constant arrays; frame-limit guard dominates every push_frame; kind<->cast tables (F6). Declared arity covers every args[i] the body reads (F9.a coverage); library indexing is guarded (F9.x); sizes taken from user numbers are range-checked before a cast or allocation (F9.size); no reachable todo!/unimplemented! on an input-dependent path (F4.todo). An Exit signal that comes straight back from resolve_call (a native used as a callback) is propagated, not sent to internal_error (F4.hook-exit); the frame-limit test may live in push_frame if every caller looks at its signal (F4.frames); a recursive walk with a moving index reads the slice at that index (F9.cursor).",
         "note": "Reachability of the ~40 'impossible state' internal_error sites is declined.",
         "technique": "static analysis: dominance + taint on MIR",
         "design_ref": "DESIGN.md §3 C16",
     },
     "C17": {
-        "text": "Export gate: every Module method through which the import handlers obtain symbol values consults Module.exports; module_instance iterates exports; get_exported_symbol_by_name returns Some only under exports.contains. Once-only: compile-and-run only on ModuleDoesNotExist, every Compiled result has passed insert_module of the same module, the importer sleeps as parent of the queued child. The module cache value stored is the inserted module itself and the cache is only written after a successful insert (F4.once); module symbol/export/module tables are traced (F5).",
+        "text": "Export gate: every Module method through which the import handlers obtain symbol values consults Module.exports; module_instance iterates exports; get_exported_symbol_by_name returns Some only under exports.contains. Once-only: compile-and-run only on ModuleDoesNotExist, every Compiled result has passed insert_module of the same module, the importer sleeps as parent of the queued child. The module cache value stored is the inserted module itself and the cache is only written after a successful insert (F4.once); module symbol/export/module tables are traced (F5). The module-cache key covers every element of the import path including what the producers of its input take off (F4.once-key); the nested-module walk indexes the path by its depth (F9.cursor).",
         "note": "Behaviour over arbitrary import graphs is declined; rewind widths are decided by F1.r.",
         "technique": "static analysis: call-graph + field-read analysis + dominance on MIR",
         "design_ref": "DESIGN.md §3 C17",
     },
     "C18": {
-        "text": "Status mapping decided by def-use: Vm::run returns Exit's code, non-zero constants for both error results, Ok unreachable; main passes .0 to process::exit; exit_code has one writer and every Exit signal is constructed with a status; both ip->line translations subtract one. (Line-table lock-step is decided by F1.w/F11 as they are wired in.) Hook results carrying LyError::Exit map to an exit signal (F4.hook-exit); scanner loops that swallow characters count newlines through new_line(), which pushes onto line_offsets (F1.line-scan); pause_unwind records the ips of exactly the frames not yet recorded (rev().skip(recorded).take(missing)) and error_backtrace/print_error pair frames innermost first (F10.bt); the error object, its message and its backtrace lines are rooted while the others are allocated (F8/F8.c on the unwind functions); F1.w keeps the line table in step with the code.",
+        "text": "Status mapping decided by def-use: Vm::run returns Exit's code, non-zero constants for both error results, Ok unreachable; main passes .0 to process::exit; exit_code has one writer and every Exit signal is constructed with a status; both ip->line translations subtract one. (Line-table lock-step is decided by F1.w/F11 as they are wired in.) Hook results carrying LyError::Exit map to an exit signal (F4.hook-exit); scanner loops that swallow characters count newlines through new_line(), which pushes onto line_offsets (F1.line-scan); pause_unwind records the ips of exactly the frames not yet recorded (rev().skip(recorded).take(missing)) and error_backtrace/print_error pair frames innermost first (F10.bt); the error object, its message and its backtrace lines are rooted while the others are allocated (F8/F8.c on the unwind functions); F1.w keeps the line table in step with the code. ip->line translations subtract one wherever they are computed (followed through parameters and callers) and frames are paired with the right ips (F10.line); a failed comparator is not called again (F4.err-stop); exit() from a native callback ends the program (F4.hook-exit).",
         "note": "That recorded lines equal the true source lines for every layout is declined.",
         "technique": "static analysis: def-use and sibling comparison on MIR",
         "design_ref": "DESIGN.md §3 C18",
     },
     "C19": {
-        "text": "Cache coverage for re-compiled modules (lengths from the numbering emitter; stored at m.id(); emitter continuation) and the REPL clauses of C15 (no exit after a failed entry; one module for the session). Equivalence of a session with the concatenated file is declined. Every existing module symbol is re-declared in slot order (F4.repl-slots); resolve_capture's state dispatches agree with each other and with variable_get's module arm (F4.repl-capture); upsert stores the new source on both arms (F4.repl-source); the run queue is only pushed to and popped from (F4.runq); sentinel equality (F10.eq).",
+        "text": "Cache coverage for re-compiled modules (lengths from the numbering emitter; stored at m.id(); emitter continuation) and the REPL clauses of C15 (no exit after a failed entry; one module for the session). Equivalence of a session with the concatenated file is declined. Every existing module symbol is re-declared in slot order (F4.repl-slots); resolve_capture's state dispatches agree with each other and with variable_get's module arm (F4.repl-capture); upsert stores the new source on both arms (F4.repl-source); the run queue is only pushed to and popped from (F4.runq); sentinel equality (F10.eq). Classes, modules and functions keep their names and members alive once the entry that defined them is gone (F5.f on Class/Module/Instance/Closure/Fun) and symbols of earlier entries are read and written alike (F2.t); inline-cache slots continue across entries (F4.cache-cover c1-c3).",
         "note": "Thin structural claim; see DESIGN.md §3 C19 for the declined clause.",
         "technique": "static analysis: def-use on MIR",
         "design_ref": "DESIGN.md §3 C19",
     },
     "C05": {
-        "text": "Structural necessary conditions of GC safety decided over all code: every gc-bearing field of every Trace/TraceRoot impl is traced (F5), raw-pointer holders perform their trace steps on every path (F5.p), kind<->type<->cast tables agree (F6), temp roots balance on every path (F7), GC phases are ordered and the object being allocated is rooted during the collection it triggers (F4). A generic container's trace reaches Trace::trace for every type parameter it stores (F5.g); fresh handles are not held across a collection point in Rust locals, native struct fields or eagerly accumulating iterator closures (F8/F8.c); list growth leaves a forwarding pointer in the old allocation (F6.moved). The GC rules are evaluated on the default and on the gc_stress build's MIR. Decides these clauses, not schedule-independence of program output.",
+        "text": "Structural necessary conditions of GC safety decided over all code: every gc-bearing field of every Trace/TraceRoot impl is traced (F5), raw-pointer holders perform their trace steps on every path (F5.p), kind<->type<->cast tables agree (F6), temp roots balance on every path (F7), GC phases are ordered and the object being allocated is rooted during the collection it triggers (F4). A generic container's trace reaches Trace::trace for every type parameter it stores (F5.g); fresh handles are not held across a collection point in Rust locals, native struct fields or eagerly accumulating iterator closures (F8/F8.c); list growth leaves a forwarding pointer in the old allocation (F6.moved). The GC rules are evaluated on the default and on the gc_stress build's MIR. Decides these clauses, not schedule-independence of program output. Element structs traced by hand hand on every gc-bearing field (F5.e); nothing is marked after the intern table is swept (F4.gc-mark-before-evict); the eviction order is judged on the sweeps flattened into collect_garbage.",
         "note": "Trusts rustc's MIR (nightly, -Zmir-opt-level=0) as the program; exception table of aliased fields in lyverif/rules/f5_trace.py (one named field + reason each); the rooting discipline of native code between allocations (F8) is only in the thorough tier and under-reports by design.",
         "technique": "static analysis: MIR dataflow (field->trace taint, post-dominators), table cross-check, path-sensitive balance",
         "design_ref": "DESIGN.md §3 C05, §2 F5-F8",
     },
     "C09": {
-        "text": "Strings are equal iff same address, so content equality holds iff every LyStr allocation goes through the intern funnel: decided as who-may-allocate (only a function that looks up first and inserts the managed string afterwards), who-may-write intern_cache, key derived from the managed bytes, eviction ordered after marking and before the sweeps, eviction keeps exactly the marked. The phase order is decided with the sweep helpers inlined and on both the default and the gc_stress configuration (where cfg'd early returns change the paths); Map's trace reaches its keys (F5.g).",
+        "text": "Strings are equal iff same address, so content equality holds iff every LyStr allocation goes through the intern funnel: decided as who-may-allocate (only a function that looks up first and inserts the managed string afterwards), who-may-write intern_cache, key derived from the managed bytes, eviction ordered after marking and before the sweeps, eviction keeps exactly the marked. The phase order is decided with the sweep helpers inlined and on both the default and the gc_stress configuration (where cfg'd early returns change the paths); Map's trace reaches its keys (F5.g). Nothing is marked after sweep_intern_cache in either collection entry point (F4.gc-mark-before-evict).",
         "note": "Trusts hashbrown's HashMap and that Value equality on objects is pointer equality (checked structurally in C10/C14 rules).",
         "technique": "static analysis: call-graph who-may-call + dominance/post-dominance + def-use on MIR",
         "design_ref": "DESIGN.md §3 C09",
     },
     "C20": {
-        "text": "Per ObjectKind the layout triple is identical at allocation, size() and dealloc (F6); sweeper closures count exactly retained objects (F10) and every collection unmarks each of the three heaps on every path (F10.sweep-cover); size accounting dominates every heap push and only allocators/sweepers touch the heaps; post-collection bytes_allocated is the sum of both sweeps and next_gc derives from it; temp roots balance on every path (a leaked root retains garbage forever); intern table evicts exactly the unmarked.",
+        "text": "Per ObjectKind the layout triple is identical at allocation, size() and dealloc (F6); sweeper closures count exactly retained objects (F10) and every collection unmarks each of the three heaps on every path (F10.sweep-cover); size accounting dominates every heap push and only allocators/sweepers touch the heaps; post-collection bytes_allocated is the sum of both sweeps and next_gc derives from it; temp roots balance on every path (a leaked root retains garbage forever); intern table evicts exactly the unmarked. ObjectHandle::size and Drop read their own block, never an accessor that follows a relocated list (F6.own-block); every collection unmarks each of the three heaps (F10.sweep-cover).",
         "note": "Decides structural accounting clauses, not the quantitative boundedness claim.",
         "technique": "static analysis: generic-argument cross-check of layout calls, sibling-closure comparison, def-use, path-sensitive balance on MIR",
         "design_ref": "DESIGN.md §3 C20",
